@@ -277,6 +277,32 @@ def succ_for_value(fn, bb, value):
     return t[3]
 
 
+def follow_const_bool(fn, start, limit=8):
+    """`matches!(..)` lowers to per-arm `_b = const true/false` followed by a join that switches on `_b`.
+    Starting in an arm, follows straight-line blocks and resolves that switch with the constant assigned on
+    the way; returns the block the arm really continues in."""
+    env = {}
+    bb = start
+    for _ in range(limit):
+        for st in fn.blocks[bb]["s"]:
+            if st[0] == "a" and isinstance(st[1], int) and st[2][0] == "use":
+                k = op_const(st[2][1])
+                if k and k[0] == "int":
+                    env[st[1]] = k[1]
+                elif op_local(st[2][1]) in env:
+                    env[st[1]] = env[op_local(st[2][1])]
+        t = fn.blocks[bb]["t"]
+        if t[0] == "goto":
+            bb = t[1]
+            continue
+        if t[0] == "switch":
+            l = op_local(t[1])
+            if l in env:
+                return succ_for_value(fn, bb, env[l])
+        return bb
+    return bb
+
+
 def bool_edge_value(fn, bb, succ):
     """Truth value of the switch operand on the edge to `succ` (None if ambiguous)."""
     vals = set()
